@@ -63,7 +63,7 @@ class Start:
         if self.judged and st.get("ret") == 0:
             gq = out.get(se.start_get); lq = out.get(self.lists)
             if not gq or not lq or not gq[0].get("st") or not lq[0].get("res"): return None
-            ev["st"] = g.keyed(gq[0]["st"]); ev["lists"] = lq[0]["res"]
+            ev["st"] = g.keyed(gq[0]["st"]); ev["lists"] = g.norm_lists(lq[0]["res"])
             for ln, kind, i in self.asp:
                 o = out.get(ln)
                 if not o or o[0].get("res") is None: return None
